@@ -1,3 +1,5 @@
+//go:build g_bits
+
 package props
 
 import (
@@ -30,14 +32,6 @@ type c06Case struct {
 
 var c06Primes = []int64{3, 5, 7, 11, 13, 17, 31, 37, 47, 61, 67, 127, 131, 251, 257, 509, 521, 65521, 65537}
 
-// arrange is the specified output of the decomposition: big-endian bytes of
-// v at width n/8, bits least-significant first inside each byte.
-func arrange(v *big.Int, n int) []int {
-	buf := make([]byte, n/8)
-	new(big.Int).And(v, new(big.Int).Sub(ref.Pow2(n), big.NewInt(1))).FillBytes(buf)
-	return ref.BytesToBitsLSB(buf)
-}
-
 // denote is the integer a big-endian bit string (LSB-first within bytes) denotes.
 func denote(bitsBE []*big.Int) *big.Int {
 	buf := make([]byte, len(bitsBE)/8)
@@ -49,30 +43,6 @@ func denote(bitsBE []*big.Int) *big.Int {
 		}
 	}
 	return new(big.Int).SetBytes(buf)
-}
-
-func digitsOf(v *big.Int, n int) []*big.Int {
-	d := make([]*big.Int, n)
-	for i := range d {
-		d[i] = big.NewInt(int64(v.Bit(i)))
-	}
-	return d
-}
-
-func toVars(d []*big.Int) []frontend.Variable {
-	o := make([]frontend.Variable, len(d))
-	for i := range d {
-		o[i] = d[i]
-	}
-	return o
-}
-
-func intsToVars(d []int) []frontend.Variable {
-	o := make([]frontend.Variable, len(d))
-	for i := range d {
-		o[i] = d[i]
-	}
-	return o
 }
 
 var (
@@ -281,17 +251,6 @@ func runC06(c c06Case) Result {
 		return ok(class, c.FlipOut != 0 || denote(c.Digits).Cmp(p) >= 0)
 	}
 	return bad(class, "harness:unknown-kind", "unknown kind")
-}
-
-func errStr(err error) string {
-	if err == nil {
-		return ""
-	}
-	s := err.Error()
-	if len(s) > 160 {
-		s = s[:160]
-	}
-	return s
 }
 
 // ---------------------------------------------------------------------------
